@@ -1,5 +1,5 @@
 (* C02G: the history of the server over whole-system runs ([srv_histr], Repl/ValRefSpec.v) for scripts whose components
-   are of every-tick kinds and hold any value (`VNat` or `VRef` to a target).  Port of Repl/ValVisHist_proofs.v (whose
+   are of every-tick kinds and hold any value (`VNat` or `VRef`).  Port of Repl/ValVisHist_proofs.v (whose
    script-independent lemmas are imported) with [comps_okr] instead of `comps_ok`. *)
 From RV Require Import Lib.Res Repl.ClientTicks Repl.ClientTicks_proofs Repl.World Vis.Visibility
   Tick.RepliconTick Tick.RepliconTick_proofs Tick.ConfirmHistory Tick.MutateTicks
